@@ -190,6 +190,7 @@ func cmdCheck(args []string) int {
 			seen[u] = true
 		}
 	}
+	replayDeadline = time.Now().Add(20 * time.Minute) // re-armed below, once the obligations have been decided
 	opt := Options{Thorough: tier == "thorough", TimeoutMs: 15000, Seed: seed}
 	if tier == "thorough" {
 		opt.TimeoutMs = 60000
@@ -234,6 +235,7 @@ func cmdCheck(args []string) int {
 			known[f.Obligation] = f
 		}
 	}
+	replayDeadline = time.Now().Add(4 * time.Minute)
 	nObl, nOK, viol := 0, 0, 0
 	var matched []string
 	var samples []interface{}
@@ -434,6 +436,10 @@ func cmdCheck(args []string) int {
 	return 0
 }
 
+// replay budget of one check run (a broken tree can fail hundreds of obligations)
+var replayBudget = 6
+var replayDeadline = time.Now().Add(4 * time.Minute)
+
 func round2(f float64) float64 { return float64(int(f*100+0.5)) / 100 }
 
 func writeEvidence(root, prop, tier string, seed int, level string, cov map[string]interface{}, assumptions []string, wall float64, viol int) {
@@ -469,7 +475,13 @@ func reportFailure(root, prop string, w *World, r *UnitResult, ob *Obligation) (
 		}
 		content["solver_output"] = out
 		if ob.Result.Status == "sat" {
-			rep := replayModel(w, r, ob)
+			var rep map[string]interface{}
+			if replayBudget > 0 && time.Now().Before(replayDeadline) {
+				replayBudget--
+				rep = replayModel(w, r, ob)
+			} else {
+				rep = map[string]interface{}{"confirmed": false, "note": "not replayed: the per-run replay budget (6 attempts / 4 minutes) was used up by earlier failing obligations of this run"}
+			}
 			content["replay"] = rep
 			if c, ok := rep["confirmed"].(bool); ok && c {
 				confirmed = true
